@@ -49,6 +49,8 @@
    Histories: results are folds of update AND merge items (RMerge); SaveHistCase folds save / in-place parameter
    change / set_parameters / result update / reload sequences over ONE object and its directory
    (SaveNameIsCurrent, SavedFilesRoundTrip; Hyp.StaleNameCache and Hyp.ZeroUpdatesSkipsState are refuted).
+   UnpHistCase folds unpacking recipes (grandchildren, parent changed after the child was taken) before the round trip
+   (Hyp.IndexClampedToRootCount refuted).
    Every scalar FIELD also takes its falsy-but-valid values (current_rep 0, runned_reps 0 / [0,0] / [], value 0 /
    0.0 / "" / None / [] / empty set, result name "", original_filename None / "", unpack index 0).
    Pickle is the identity on this universe at model level; the harness checks it on the real files.
@@ -754,10 +756,15 @@ RelS(S)   == {f \in DevNames : LET t == EncS(S, Only(f)) IN
 \*                              found records the template before it validates - reported in notes/C17.md)
 ReqObject == {"ArgumentsUnchanged", "QueryIsPure", "EarlierResultsUnchanged", "LoadedIsIndependent"}
 ReqFiles  == ReqObject \cup {"ReturnedNameIsTheFile", "RejectedSaveChangesNothing"}
+\* hypothetical decoder that distrusts an index not smaller than the variation count of the ROOT object
+RECURSIVE RootOf(_)
+RootOf(P) == IF Len(P.parent) = 0 THEN P ELSE RootOf(P.parent[1])
+ClampIdx(P) == IF Hyp.IndexClampedToRootCount /\ Len(P.parent) = 1 /\ CanChild(RootOf(P))
+                  /\ P.index >= NumVar(RootOf(P)) THEN [P EXCEPT !.index = -1] ELSE P
 ParamsCaseRec(kind, id, P, k) ==
   LET t  == EncP(P, Dev)
       ok == ~Raises(t)
-      b  == IF ok THEN DecP(t, Dev) ELSE P
+      b  == IF ok THEN ClampIdx(DecP(t, Dev)) ELSE P
   IN  [kind |-> kind, id |-> id, P |-> P, k |-> k, tree |-> t, encRaises |-> ~ok, back |-> b,
        tree2 |-> IF ok THEN EncP(b, Dev) ELSE t, rel |-> RelP(P), eqdef |-> EqDefinedP(P), req |-> ReqObject]
 
@@ -778,6 +785,55 @@ ParamsCase ==
         IN  \E k \in -1..(IF CanChild(P) /\ marks # {} THEN NumVar(P) - 1 ELSE -1) :
               /\ Pick(i + Cardinality(marks) + k + 1)
               /\ c' = ParamsCaseRec("params", <<i, MarkCode(marks), k>>, IF k < 0 THEN P ELSE Child(P, k), k)
+
+(* ---------------- unpacking HISTORIES before the round trip --------------------------------------------------
+   A parameters object is what a recipe of operations leaves: create, mark names, take child k (the child refers to
+   the object it was taken from), mark names ON THE CHILD and take a child of it (two-level unpacking: the index of a
+   grandchild counts the child's variations, not the root's), and changes made to the parent AFTER the children
+   were taken (the children hold a live reference): the marked parameter shortened, a mark removed, another
+   parameter replaced.  The object at the end of the recipe - index, marks, the whole chain of parents as they are
+   NOW - must survive every route (MarksPreserved looks at the first parent, RoundTripFaithful at the whole chain). *)
+SetParam(P, nm, v) == IF nm \in Names(P)
+                      THEN [P EXCEPT !.params = [i \in 1..Len(P.params) |-> IF P.params[i].name = nm THEN PV(nm, v) ELSE P.params[i]]]
+                      ELSE [P EXCEPT !.params = Append(@, PV(nm, v))]
+ROp(op, names, k, name, val) == [op |-> op, names |-> names, k |-> k, name |-> name, val |-> val]
+Shorten(v) == IF v.t = "List" THEN List(SubSeq(v.items, 1, 1))
+              ELSE Arr(v.dtype, <<1>> \o Tail(v.shape), SubSeq(v.data, 1, Prod(Tail(v.shape))))
+RStep(P, o) ==
+  CASE o.op = "mark"      -> [P EXCEPT !.unpacked = @ \cup o.names]
+    [] o.op = "child"     -> Child(P, o.k)
+    [] o.op = "parentset" -> [P EXCEPT !.parent = <<SetParam(@[1], o.name, o.val)>>]
+    [] o.op = "parentunmark" -> [P EXCEPT !.parent = <<[@[1] EXCEPT !.unpacked = @ \ {o.name}]>>]
+RECURSIVE RecipeFold(_, _, _)
+RecipeFold(P0, ops, n) == IF n = 0 THEN P0 ELSE RStep(RecipeFold(P0, ops, n - 1), ops[n])
+Unpackable(P) == {nm \in Names(P) : Val(P, nm).t \in {"List", "Array"} /\ Len(Iter(Val(P, nm))) >= 1}
+UnpContents == <<PBase[1], PBase[2], PBase[4], PBase[6], PBase[7]>>
+UnpHistCase ==
+  /\ c.kind = "init" /\ Family = "params"
+  /\ \E i \in 1..Len(UnpContents) :
+     LET P0 == MkP(UnpContents[i], {}, -1, <<>>) IN
+     \E n1 \in Unpackable(P0) :
+     LET P1 == [P0 EXCEPT !.unpacked = {n1}]   L1 == NumVar(P1) IN
+     \E k1 \in {0, L1 - 1} :
+     LET C == Child(P1, k1)   i1 == CHOOSE x \in 1..Len(NameOrder) : NameOrder[x] = n1 IN
+       \/ \* two-level unpacking: a grandchild
+          \E n2 \in Unpackable(C) :
+          LET C2 == [C EXCEPT !.unpacked = {n2}]   i2 == CHOOSE x \in 1..Len(NameOrder) : NameOrder[x] = n2 IN
+          \E k2 \in 0..NumVar(C2) - 1 :
+             LET ops == <<ROp("mark", {n1}, 0, "", NoneV), ROp("child", {}, k1, "", NoneV),
+                          ROp("mark", {n2}, 0, "", NoneV), ROp("child", {}, k2, "", NoneV)>>
+             IN  /\ Pick(i + k1 + k2)
+                 /\ c' = [ParamsCaseRec("unphist", <<i, i1, k1, i2, k2>>, RecipeFold(P0, ops, 4), k2)
+                          EXCEPT !.req = @ \cup {"IndexCountsTheParentsVariations"}] @@ [P0 |-> P0, recipe |-> ops]
+       \/ \* the parent is changed after the child was taken
+          \E v \in 1..3 :
+             LET chg == CASE v = 1 -> ROp("parentset", {}, 0, n1, Shorten(Val(P0, n1)))
+                          [] v = 2 -> ROp("parentunmark", {}, 0, n1, NoneV)
+                          [] v = 3 -> ROp("parentset", {}, 0, "num", Num("PyInt", 12345, 1))
+                 ops == <<ROp("mark", {n1}, 0, "", NoneV), ROp("child", {}, k1, "", NoneV), chg>>
+             IN  /\ Pick(i + k1 + v)
+                 /\ c' = [ParamsCaseRec("unphist", <<i, i1, k1, 0, -v>>, RecipeFold(P0, ops, 3), k1)
+                          EXCEPT !.req = @ \cup {"ChildSeesTheParentAsItIsNow"}] @@ [P0 |-> P0, recipe |-> ops]
 
 ResultCase ==
   /\ c.kind = "init" /\ Family = "result"
@@ -880,9 +936,6 @@ HOthers == <<HOp("add", <<>>, "", "num", Num("PyInt", 7, 1), HNoP), HOp("setitem
              HOp("cur", <<>>, "", "", Num("PyInt", 5, 1), HNoP), HOp("reload", <<>>, "", "", NoneV, HNoP),
              HOp("mergeall", <<>>, "", "", NoneV, HNoP)>>      \* merge_all_results(deep copy of the object itself)
 HOps == HSaves \o HOthers
-SetParam(P, nm, v) == IF nm \in Names(P)
-                      THEN [P EXCEPT !.params = [i \in 1..Len(P.params) |-> IF P.params[i].name = nm THEN PV(nm, v) ELSE P.params[i]]]
-                      ELSE [P EXCEPT !.params = Append(@, PV(nm, v))]
 Lookup(seq, key) == LET hit == {i \in 1..Len(seq) : seq[i].key = key} IN IF hit = {} THEN 0 ELSE CHOOSE i \in hit : TRUE
 HStep(h, o) ==
   CASE o.op = "save" ->
@@ -1004,11 +1057,11 @@ FileNameCase ==
                      rel |-> IF FnPool[i].t = "NpBool" \/ FnPool[k].t = "NpBool" THEN {"NpBoolRaises"} ELSE {}]
 
 Init == c = [kind |-> "init"]
-Next == ValueCase \/ ParamsCase \/ ResultCase \/ ResultsCase \/ FieldsCase \/ SaveHistCase \/ FileNameCase \/ FineCase \/ LimitCase
+Next == ValueCase \/ ParamsCase \/ UnpHistCase \/ ResultCase \/ ResultsCase \/ FieldsCase \/ SaveHistCase \/ FileNameCase \/ FineCase \/ LimitCase
 Emit == EmitCase(c')
 
 (* ==================================== the laws ================================================== *)
-IsP == c.kind \in {"value", "params"}
+IsP == c.kind \in {"value", "params", "unphist"}
 IsR == c.kind = "result"
 IsS == c.kind \in {"results", "fields"}
 Coded == IsP \/ IsR \/ IsS
@@ -1054,7 +1107,7 @@ FileNameInjective ==
   c.kind = "fname" => ((Kind(c.v1) = "Str") = (Kind(c.v2) = "Str") /\ ~LibEq(c.v1, c.v2) => c.n1 # c.n2)
 FileNameFunctional ==
   c.kind = "fname" => (Faithful(c.v1, c.v2) => c.n1 = c.n2)
-TypeOK == c.kind \in {"init", "value", "params", "result", "results", "fields", "savehist", "fname", "fine", "limit"}
+TypeOK == c.kind \in {"init", "value", "params", "result", "results", "fields", "savehist", "fname", "fine", "limit", "unphist"}
 \* every save of a history goes to the name the template has for the parameters as they are at that moment, and
 \* what the saved files hold round-trips (the JSON ones through Enc / Dec)
 SaveNameIsCurrent == c.kind = "savehist" => \A k \in 1..Len(c.steps) : c.steps[k].op = "save" => c.steps[k].name = c.steps[k].cur
